@@ -18,7 +18,7 @@ from vlib.verdict import Case
 
 PROPERTY = 'C20'
 MANIFEST = {
- 'level_text': 'Lean 4 theorems about a model of Irc.addCallback/getCallback/removeCallback, IrcCallback/Owner/Misc.callPrecedence and the control flow of Owner.load/unload/reload: for every iteration order of the Python sets the computed order is a permutation of the callbacks in which every resolved before/after edge holds (order_sound), Owner is first and Misc last (owner_first, misc_last), constraint sets admitting no order are rejected and leave the list unchanged (cycle_rejected) while every constraint set that admits an order is accepted (acyclic_accepted), the loop never needs more rounds than callbacks (fuel_enough); along every history of load/unload/reload with arbitrary failures the list keeps unique names, satisfied edges and Owner first (history_inv), failed loads and attempts on Owner change nothing (load_failure_preserves, owner_stays), a reload whose module cannot be imported (ImportError or any other exception) puts the untouched old instance back (reload_failure_preserves), a plugin naming itself in callBefore/callAfter is rejected as a cycle (self_reference_rejected), the answered commands are exactly those of the registered plugins (commands_union), also through C14's model of findCallbacksForArgs/finalEval (commands_dispatch); the persisted supybot.plugins.<Name> flags follow load/unload (flag_tracks) and the start-up loader Owner._loadPlugins keeps the invariant, drops nothing and adds only flagged or forced-important plugins (startup_inv, unloaded_stays_out); all Irc objects (networks) refer to one list object that the commands only mutate in place, so every network sees the same list after any history (shared_view, shared_history). The model is tied to /repo by a differential run of seeded random histories against a live bot with synthetic plugins (arbitrary callBefore/callAfter incl. unknown names, cycles, case variants, raising __init__/die/import), which also evaluates the property statement on the implementation after every step.',
+ 'level_text': 'Lean 4 theorems about a model of Irc.addCallback/getCallback/removeCallback, IrcCallback/Owner/Misc.callPrecedence and the control flow of Owner.load/unload/reload: for every iteration order of the Python sets the computed order is a permutation of the callbacks in which every resolved before/after edge holds (order_sound), Owner is first and Misc last (owner_first, misc_last), constraint sets admitting no order are rejected and leave the list unchanged (cycle_rejected) while every constraint set that admits an order is accepted (acyclic_accepted), the loop never needs more rounds than callbacks (fuel_enough); along every history of load/unload/reload with arbitrary failures the list keeps unique names, satisfied edges and Owner first (history_inv), failed loads and attempts on Owner change nothing (load_failure_preserves, owner_stays), a reload whose module cannot be imported (ImportError or any other exception) puts the untouched old instance back (reload_failure_preserves), a plugin naming itself in callBefore/callAfter is rejected as a cycle (self_reference_rejected), the answered commands are exactly those of the registered plugins (commands_union), also through the C14 model of findCallbacksForArgs/finalEval (commands_dispatch); the persisted supybot.plugins.<Name> flags follow load/unload (flag_tracks) and the start-up loader Owner._loadPlugins keeps the invariant, drops nothing and adds only flagged or forced-important plugins (startup_inv, unloaded_stays_out); all Irc objects (networks) refer to one list object that the commands only mutate in place, so every network sees the same list after any history (shared_view, shared_history). The model is tied to /repo by a differential run of seeded random histories against a live bot with synthetic plugins (arbitrary callBefore/callAfter incl. unknown names, cycles, case variants, raising __init__/die/import), which also evaluates the property statement on the implementation after every step.',
  'level_note': 'Trusted: Lean kernel; axioms propext/Classical.choice/Quot.sound only; the correspondence harness and its synthetic plugins; names are ASCII (str.lower modelled on ASCII). Modelled and proved: the topological sort of addCallback with its set-order freedom, case-insensitive lookup/removal, the callPrecedence variants (a self-reference is a one-element cycle), the success/failure paths of load (incl. --deprecated) / unload / reload, the flag registration of conf.registerPlugin, the start-up loader with importantPlugins / alwaysLoadImportant. Exercised only: importing modules from disk, conf.registerPlugin flags, command dispatch of the probe commands (C14 covers dispatch). Known finding kept in the model: reload loses the plugin when the new constructor raises or the new instance closes a cycle, because the old instance has been killed by then (reload_failure_partial, reload_ctor_counter).',
  'technique': 'Lean 4 proof (loop invariants over the extraction rounds, history induction) + differential correspondence on a live bot',
  'design_ref': 'DESIGN.md §6 C20',
